@@ -33,7 +33,9 @@ InitState == [arrived |-> 0, closed |-> FALSE, delivered |-> 0, errSeen |-> FALS
               sent |-> "no", op |-> "none", buf |-> 0, dead |-> FALSE]
 
 ReadOps   == {"read"}
-BytesOps  == {"bytes", "write_to", "text_utf8_raw"}      \* return the remaining payload octets
+BytesOps  == {"bytes", "write_to", "text_utf8_raw", "split_bytes", "efs_bytes"}      \* return the remaining payload octets
+\* efs_bytes = error_for_status() then bytes(): the response itself for a 2xx status, Err(StatusCode) otherwise
+EfsRejects(s, st) == st.op = "efs_bytes" /\ ~(s.status \in 200..299)
 TextOps   == {"text", "text_with", "text_utf8", "text_reader"} \* return the decoded string
 HelperOps == BytesOps \cup TextOps
 
@@ -83,7 +85,7 @@ G05_readReturns(s, st, e) == e.res # "panic"
 
 \* ---- return of a convenience reader ---------------------------------------
 G01_helperWhole(s, st, e) ==
-  (s.faultKind = "none" /\ ~st.errSeen) =>
+  (s.faultKind = "none" /\ ~st.errSeen /\ ~EfsRejects(s, st)) =>
      /\ e.res = "ok"
      /\ IF st.op \in BytesOps THEN e.n = s.payloadLen - st.delivered /\ e.lcp = e.n
         ELSE st.delivered = 0 => (e.n = s.textLen /\ e.lcp = e.n)
@@ -94,6 +96,7 @@ G02_helperPrefix(s, st, e) ==
 \* also a helper that ended in an error has only handed out a prefix of the payload
 G02_handedOutIsPrefix(s, st, e) == e.res = "err" => e.lcp = e.n
 G05_helperReturns(s, st, e) == e.res # "panic"
+G04_errorForStatus(s, st, e) == EfsRejects(s, st) => (e.res = "err" /\ (~st.errSeen => e.kind = "StatusCode"))
 
 \* ---- the client asks the transport for octets that have not arrived -------
 \* send() may only wait while the head is incomplete
@@ -113,7 +116,7 @@ G19_noWaitBeyondFrame(s, st) ==
 
 SendGuards   == {"G04_sendOkOnValidHead", "G03_badLengthRejected", "G02_cutHeadIsError", "G05_sendReturns"}
 ReadGuards   == {"G01_prefix", "G01_eofOnlyWhenComplete", "G01_noSpuriousError", "G03_emptyBody", "G05_readReturns"}
-HelperGuards == {"G01_helperWhole", "G02_helperErrOnDefect", "G02_helperPrefix", "G02_handedOutIsPrefix", "G05_helperReturns"}
+HelperGuards == {"G01_helperWhole", "G02_helperErrOnDefect", "G02_helperPrefix", "G02_handedOutIsPrefix", "G05_helperReturns", "G04_errorForStatus"}
 WantGuards   == {"G19_sendNotBlockedAfterHead", "G19_readNotBlockedWhenDeliverable", "G19_noWaitBeyondFrame"}
 
 RetGuard(g, s, st, e) ==
@@ -131,6 +134,7 @@ RetGuard(g, s, st, e) ==
     [] g = "G02_helperPrefix"        -> G02_helperPrefix(s, st, e)
     [] g = "G05_helperReturns"       -> G05_helperReturns(s, st, e)
     [] g = "G02_handedOutIsPrefix"   -> G02_handedOutIsPrefix(s, st, e)
+    [] g = "G04_errorForStatus"      -> G04_errorForStatus(s, st, e)
 
 WantGuard(g, s, st) ==
   CASE g = "G19_sendNotBlockedAfterHead"       -> G19_sendNotBlockedAfterHead(s, st)
@@ -142,7 +146,7 @@ GuardsOfOp(op) == IF op = "send" THEN SendGuards ELSE IF op = "read" THEN ReadGu
 (* Property a failed guard is attributed to.  Guards named G01_* speak    *)
 (* about intact responses (C01) and about responses with a fault (C02).   *)
 GuardProp(g) ==
-  CASE g \in {"G04_sendOkOnValidHead"} -> "C04"
+  CASE g \in {"G04_sendOkOnValidHead", "G04_errorForStatus"} -> "C04"
     [] g \in {"G03_badLengthRejected", "G03_emptyBody"} -> "C03"
     [] g \in {"G02_cutHeadIsError", "G02_helperErrOnDefect", "G02_helperPrefix", "G02_handedOutIsPrefix"} -> "C02"
     [] g \in {"G05_sendReturns", "G05_readReturns", "G05_helperReturns"} -> "C05"
